@@ -28,7 +28,13 @@ def corner_points():
     deltas = [{}, {'ns': ''}, {'ns': 'N.M'}, {'menu': 'empty'}, {'nprov': 0, 'nreq': 0}, {'mc': 'p0:0'},
               {'mc': 'p0:1', 'evnames': 'acqfree', 'prefix': 'Other.Project'}, {'nreq': 2, 'rsem': 'firstmts'},
               {'prefix': 'Other.Project'}, {'psem': 'STS', 'rsem': 'allsts'}, {'fac': 'import'},
-              {'kind': 'system', 'ns': ''}, {'ninj': 1}, {'ns': '', 'mc': 'p0:0', 'fac': 'import'}]
+              {'kind': 'system', 'ns': ''}, {'ninj': 1}, {'ns': '', 'mc': 'p0:0', 'fac': 'import'},
+              # namespace shadowing (an unrooted C++ name would bind to the wrong namespace), per-interface externs,
+              # unusual declaration orders
+              {'ns': 'N.M', 'place': 'shadow', 'spell': 'full'},
+              {'ns': 'N.M', 'place': 'shadow', 'spell': 'full', 'mc': 'p0:0'},
+              {'extscope': 'split', 'nreq': 2}, {'extscope': 'split', 'nprov': 2, 'nreq': 2, 'mc': 'p1:0'},
+              {'evorder': 'reversed', 'mc': 'p0:2'}, {'evorder': 'interleaved'}]
     out = []
     for d in deltas:
         pt = dict(M.BASE_POINT)
